@@ -11,6 +11,7 @@ import (
 	"go/types"
 	"sort"
 	"strings"
+	"sync"
 
 	"golang.org/x/tools/go/types/typeutil"
 
@@ -127,10 +128,13 @@ type Index struct {
 	funcs   []*Func
 	pkgOf   map[*types.Package]*load.Package
 	methods map[*types.Named][]*Func
+
+	foMu       sync.Mutex
+	fieldOwner map[*types.Var]*types.Named
 }
 
 func NewIndex(p *load.Program) *Index {
-	ix := &Index{Prog: p, byObj: map[*types.Func]*Func{}, pkgOf: map[*types.Package]*load.Package{}, methods: map[*types.Named][]*Func{}}
+	ix := &Index{Prog: p, byObj: map[*types.Func]*Func{}, pkgOf: map[*types.Package]*load.Package{}, methods: map[*types.Named][]*Func{}, fieldOwner: map[*types.Var]*types.Named{}}
 	for _, pk := range p.Sorted() {
 		ix.pkgOf[pk.Types] = pk
 		for _, f := range pk.Files {
@@ -276,13 +280,14 @@ func (ix *Index) FieldKey(v *types.Var) string {
 	return v.Name()
 }
 
-var fieldOwnerCache = map[*types.Var]*types.Named{}
-
 // FieldOwner finds the named struct type declaring field v (workspace types only).
 func (ix *Index) FieldOwner(v *types.Var) *types.Named {
-	if n, ok := fieldOwnerCache[v]; ok {
+	ix.foMu.Lock()
+	if n, ok := ix.fieldOwner[v]; ok {
+		ix.foMu.Unlock()
 		return n
 	}
+	ix.foMu.Unlock()
 	var found *types.Named
 	if v.Pkg() != nil {
 		sc := v.Pkg().Scope()
@@ -306,7 +311,9 @@ func (ix *Index) FieldOwner(v *types.Var) *types.Named {
 			}
 		}
 	}
-	fieldOwnerCache[v] = found
+	ix.foMu.Lock()
+	ix.fieldOwner[v] = found
+	ix.foMu.Unlock()
 	return found
 }
 
